@@ -103,6 +103,11 @@ def jobs(tier):
     for op in ("map", "filter", "filterfalse", "takewhile", "dropwhile", "starmap", "accumulate_f", "iter_sentinel"):
         add(op, 1, 2, 4, ffl="defaw", fl="acls")
     add("merge", 2, 1, 4, ffl="defaw", b1=True)
+    add("cycle", 1, 2, 7, fl="llist")
+    add("cycle", 1, 3, 8, fl="seq")
+    for op in ("zip", "map", "zip_longest", "compress"):
+        add(op, 2, 2, 4, fls=["agen", "list", "agen", "list"])
+        add(op, 2, 2, 4, fls=["list", "acls", "list", "acls"])
     return J
 
 
